@@ -62,7 +62,9 @@ async def run():
         st.validate_event = ok
         for ev in events():
             obj = ev.to_json_object()
-            await st.add_event(json.loads(json.dumps(obj)))
+            stored_ev, changed = await st.add_event(json.loads(json.dumps(obj)))
+            if not changed:
+                fails.append(("accepted-event-not-stored", {"event": obj}))
             back = None
             async for e2 in st.run_single_query([{"ids": [ev.id]}]):
                 back = e2
@@ -73,7 +75,8 @@ async def run():
             bobj = back.to_json_object()
             if json.loads(json.dumps(bobj)) != json.loads(json.dumps(obj)):
                 fails.append(("stored-event-differs", {"accepted": obj, "served": bobj}))
-            for which, e in (("stored", back), ("live", ev)):
+            # the live path serves the object add_event returns (what notify_all_connected is given), after everything add_event did to it
+            for which, e in (("stored", back), ("live", stored_ev)):
                 for sid in SUBIDS:
                     cases += 1
                     frame = event_as_json(sid, e)
